@@ -223,6 +223,7 @@ func init() {
 			"due = next_run_time <= c.Time(), ordered next_run_time ASC, sort_id ASC, LIMIT batch; advance = SET last_run_time = next_run_time, next_run_time = · WHERE id = · AND next_run_time = · with operands (NextRunTime, Id, LastRunTime) (R1/R2)",
 			"next = Next(occurrence just fired, cron); promise id from the template with (schedule id, occurrence); timeout = occurrence + configured timeout; configured param and tags; create: first occurrence after c.Time() (R9)",
 			"the advance is an extra command of the promise creation: one transaction (R5)",
+			"the id template is rendered by an engine that inserts its operands verbatim: no identifier of the coroutine package resolves into html/template, html or net/url (R15)",
 		},
 		[]string{"the cron library", "catch-up counts", "crashes mid-cycle (C06)", "template engine behaviour on client templates (findings F8, F10, F17: see C13/C20)"}).
 		rule("R7-decision-tables", ruleTables(tblCreateSchedule, tblDeleteSchedule)).
@@ -237,7 +238,8 @@ func init() {
 		rule("R14-clock-fresh", ruleClockFresh).
 		rule("R9-schedule-marker-tags", ruleScheduleMarkerTags).
 		rule("R6-response-shapes", ruleRespProvenance("CreateScheduleResponse", "ReadScheduleResponse", "DeleteScheduleResponse")).
-		rule("R7-decision-tables-2", ruleTables(tblReadSchedule))
+		rule("R7-decision-tables-2", ruleTables(tblReadSchedule)).
+		rule("R15-id-template-verbatim", ruleIdTemplateVerbatim)
 
 	regProp("C14",
 		[]string{
